@@ -20,9 +20,11 @@ TCall == /\ l <= Len(Traces[tid].events) /\ l' = l + 1 /\ UNCHANGED tid
                 /\ memo' = IF Known(k) THEN memo ELSE Append(memo, << k, e.res >>)
                 /\ mem' = mem
                 /\ last' = [f |-> e.f, args |-> e.before, res |-> e.res]
-         /\ Repeatable'
 TraceSpec == TraceInit /\ [][TCall]_tvars
-Progress == LET f == TLCGet(1) IN IF f[tid] < l THEN TLCSet(1, [f EXCEPT ![tid] = l]) ELSE TRUE
+(* a state that violates an invariant is pruned and does not count as progress (an INVARIANT in the cfg would stop
+   the whole batch at the first violation; priming the invariants into the actions is an order of magnitude slower) *)
+TraceInv == Repeatable
+Progress == TraceInv /\ (LET f == TLCGet(1) IN IF f[tid] < l THEN TLCSet(1, [f EXCEPT ![tid] = l]) ELSE TRUE)
 Accepted == LET f == TLCGet(1) IN
             \A t \in 1..Len(Traces) : \/ f[t] = Len(Traces[t].events) + 1
                                       \/ PrintT(<<"REJECTED", t, f[t]>>) /\ FALSE
